@@ -138,7 +138,7 @@ def run_one(seed, preset=None, tier="quick", want_case=False):
                 last_out = out
                 metrics["executions"] += 1
                 metrics["sampled_executions"] += 1
-                sched_kinds[sch[0]] = sched_kinds.get(sch[0], 0) + 1
+                sched_kinds[sch[0] + ("+eager" if sch[2].endswith("+eager") else "")] = sched_kinds.get(sch[0] + ("+eager" if sch[2].endswith("+eager") else ""), 0) + 1
                 orders.add(out.order)
                 max_susp = max(max_susp, out.max_parked)
                 tot["releases"] += out.releases
